@@ -378,7 +378,11 @@ class Path:
         d[dst.off:dst.off + n] = chunk
 
     # ---- execution
-    def call(self, fname, args, depth=0):
+    def call(self, fname, args, depth=0, machine_abi=False):
+        """machine_abi: the caller is Rust code that passes `args` by position in registers (the entry call of a
+        compiled function): parameter k of the callee receives machine argument k, whatever the callee's own idea
+        of its parameter list is; a parameter without a machine argument, or one that receives a pointer where it
+        expects a scalar, reads an arbitrary value."""
         if depth > self.max_depth:
             raise PathCut(f"inlining depth {depth}")
         f = self.w.funcs.get(fname)
@@ -420,6 +424,21 @@ class Path:
             if visits[blk] > 4 * self.k_loop + 4:
                 raise PathCut(f"block {blk} of {fname} visited {visits[blk]} times")
             params, insts = f.blocks[blk]
+            if machine_abi and blk == f.order[0] and len(visits) == 1 and visits[blk] == 1:
+                fixed = []
+                for k, (pv, pt) in enumerate(params):
+                    a = bargs[k] if k < len(bargs) else None
+                    bits = TY_BITS.get(pt)
+                    if a is None or (isinstance(a, Ptr) and bits != 64) or (z3.is_bv(a) and bits is not None and a.size() != bits and not isinstance(a, Ptr)):
+                        if bits is None:
+                            raise Unsupported("machine argument for a non-integer parameter")
+                        if a is not None and z3.is_bv(a) and a.size() > bits:
+                            a = z3.Extract(bits - 1, 0, a)
+                        else:
+                            self.fresh = getattr(self, "fresh", 0) + 1
+                            a = z3.BitVec(f"register_garbage_{self.fresh}", bits)
+                    fixed.append(a)
+                bargs = fixed
             if len(params) != len(bargs):
                 raise Unsupported("block argument count mismatch")
             for (pv, pt), a in zip(params, bargs):
